@@ -22,7 +22,7 @@ import vlib
 from checks import c09_types
 
 THEOREMS = ["Yardl.C09.violation_anywhere_rejects", "Yardl.C09.accepted_means_every_node_ok", "Yardl.C09.visitor_reaches_every_child",
-            "Yardl.C09.visitor_covers_type_nodes", "Yardl.C09.all_rule_passes_in_pipeline", "Yardl.C09.import_and_version_errors_returned", "Yardl.C09.reference_cycle_is_rejected", "Yardl.C09.type_rules_enforced_anywhere", "Yardl.C09.null_must_be_first",
+            "Yardl.C09.visitor_covers_type_nodes", "Yardl.C09.all_rule_passes_in_pipeline", "Yardl.C09.import_and_version_errors_returned", "Yardl.C09.reference_cycle_is_rejected", "Yardl.C09.type_rules_enforced_anywhere", "Yardl.C09.accepted_enum_is_well_formed", "Yardl.C09.null_must_be_first",
             "Yardl.C09.null_alone_is_rejected", "Yardl.C09.unions_do_not_nest", "Yardl.C09.map_key_must_be_scalar", "Yardl.C09.array_dimension_rules"]
 
 P = lambda n: ("prim", n)
@@ -88,6 +88,7 @@ def run(report, tier, seed):
         rr = random.Random(seed * 7331 + 9)
         gen_lean = vlib.LeanDriver("wiredrv")
         c09_types.type_rules(report, ybin, sc, gen_lean, random.Random(seed * 911 + 9), 400 if quick else 6000, seed)
+        c09_types.enum_rules(report, ybin, sc, gen_lean, random.Random(seed * 677 + 9), 300 if quick else 4000, seed)
         gen_lean.close()
         n_bases = 2 if quick else 8
         per_base = 100 if quick else 300
